@@ -101,7 +101,10 @@ class C07(Prop):
                   "min(n, available) bytes of unread ++ unpulled, leftover buffer bytes first, and leaves the rest for the next read_frame), "
                   "c07_request (one request = the header `next` gives, then that payload), for any stream, chunking, `plen` and SIZE. "
                   "The serve loop itself and write_all are modelled glue held by correspondence (the crate ships the loop only as a test). "
-                  "The async variant is exercised by correspondence on the tokio harness (family ASRV) and rests on C14/C16.")
+                  "GenEq/SrcC07.v restates the drain about the regenerated take_read / chain_read / io::Read::read. Tokio half: c07_async_chain_is_source "
+                  "(AsyncFixedBuf read through AsyncRead is an async prefix source of its unread bytes, and AsyncReadWriteChain(buffer, transport) one "
+                  "of unread ++ unpulled, under every Pending pattern and for every ReadBuf); the async take and the loop on top of it are "
+                  "exercised by correspondence on the tokio harness (family ASRV) and rest on C14/C16.")
     nontrivial_rule = ("request sequences (payloads may contain delimiter bytes; payload lengths 0, 1, 2, 5, SIZE, SIZE+1, beyond the stream) x EVERY "
                        "composition of short streams into transport chunks x destination schedules x SIZE; random longer sequences with partial "
                        "writes; checked against the chunk-free segmentation; non-trivial = at least one payload byte; distinct = distinct (case, trace)")
